@@ -247,6 +247,7 @@ func main() {
 	wg.Wait()
 	if *onlyKey == "" {
 		growStage()
+		concurrentCompileStage()
 	}
 	rep.Exhaustive = false
 	rep.Write(orc)
